@@ -69,4 +69,6 @@ package discovery
 //@   site call NodeKey2: assert msg.ChannelFlags % 2 == 1 && arg(0) == chanInfo
 //@   site call VerifyChannelUpdateSignature: assert arg(0) == msg && arg(1) != nil &&
 //@        (arg(1) == retn(NodeKey1, 0) || arg(1) == retn(NodeKey2, 0))
-//@   site call MarkEdgeLive: assert ret(VerifyChannelUpdateSignature) == nil && arg(2) == scid
+//@   // a zombie is resurrected only by an update that could also be applied: consistent fields, then the owner's signature (finding F20)
+//@   site call MarkEdgeLive: assert ret(VerifyChannelUpdateSignature) == nil && arg(2) == scid && ret(ValidateChannelUpdateFields) == nil
+//@   site call ValidateChannelUpdateFields: assert arg(1) == msg
